@@ -378,9 +378,19 @@ static void big_check(const Json& c, Out& o) {
     o.label(d % am == 0 ? "rem=0" : d % am == 1 ? "rem=1" : d % am == am - 1 ? "rem=|step|-1" : "rem=other");
     if (cnt >= 2 || am >= 2) o.nontrivial(key_of(n, i1, i2, st));
 }
+#if defined(__has_feature)
+#if __has_feature(address_sanitizer)
+#define C04_ASAN 1
+#endif
+#endif
 static void big_gen(Ctx& ctx) {
-    ctx.rc("triples", ctx.by_tier(600000, 6000000), [&]() {
-        int n = pick_log(1, 100000);
+#ifdef C04_ASAN
+    const int budget = ctx.by_tier(40000, 400000), nmax = 20000;   // instrumented build: ~15x slower per element
+#else
+    const int budget = ctx.by_tier(600000, 6000000), nmax = 100000;
+#endif
+    ctx.rc("triples", budget, [&]() {
+        int n = pick_log(1, nmax);
         int st = pick(1, 9) * (flip() ? 1 : -1);
         if (pick(0, 9) == 0) st = pick(-n - 1, n + 1);
         if (st == 0 && pick(0, 3) != 0) st = 1;
